@@ -1,15 +1,46 @@
 /-
 C13 — incremental parsing is independent of how the input is fragmented.
 
-Property theorems only (helper lemmas: `Proofs/Incremental.lean`; model: `Model/Incremental.lean`).
-The model is the *scanner layer* of `IterativeParser.consume` as of /repo HEAD (incl. 179bde08 "an empty regex
+Property theorems only (helper lemmas: `Proofs/Incremental.lean`, `Proofs/IncrEarley*.lean`; models:
+`Model/Incremental.lean` — the scanner layer — and `Model/IncrEarley.lean` — the real closure).
+
+**The scanner layer** is the model of `IterativeParser.consume` as of /repo HEAD (incl. 179bde08 "an empty regex
 match is a match", a33087ac "text/bytes/regex terminals only at byte boundaries", 1ef12755 "a character above
 U+00FF has no bits"; `C13_source_configuration` pins these three shapes to the source on every run) — literal /
 regex / bit scanning with the two code paths "whole terminal" and "incomplete state, re-scanned with the next
 fragment", the 8-columns-per-unit offsets, states added to the column that is being processed (empty matches), and
-the unprocessed last column — over an abstract predict/complete closure whose assumed laws are `Engine.Lawful` /
-`Engine.LawfulCC`.  Regular expressions are an oracle; what is assumed of it is the explicit hypothesis
-`CutStable R` (checked against `re` / `regex` for every case by `harness/props/c13.py`).
+the unprocessed last column — over a predict/complete closure `Engine.close` of which the theorems use the laws
+`Engine.LawfulOn ok` / `Engine.LawfulCCOn ok okc` *for the column passes named by `ok`* (§1, §2: the hypotheses
+`feedOK` / `chunkOK` say that the passes of the runs that are compared are such passes).
+
+**The closure** (§6).  The laws are proved for
+  * `linEngine` (finite unions of terminal sequences), for all passes (`C13_linEngine_lawful`), and
+  * **`earleyEngine`, the closure of the parser as it is** (`Model/IncrEarley.lean`: the worklist pass of `_consume`
+    over one column — `Earley.step` of the line-by-line Earley model for `complete`, the live `complete` loop,
+    `predict` with its pending completions of finished empty derivations (1d73281f), the covering cut (73e5ffe3),
+    admission by core item + children, `place_repetition_shortcut`; the scanning branch replaced by the same-column
+    scanner of the scanner layer; `C13_closure_configuration` pins policy / cut / completing predict to the source),
+    **for the passes that come to their end within the fuel, in which the covering cut does not fire, and which
+    leave no `*` / `+` right-recursion state in the closed column** (`CloseRes.ok`; `C13_earleyEngine_lawful`).
+    The proof characterises such a pass: its closed column is exactly the least set `Der` closed under scanning,
+    prediction and completion, which only mentions the SETS of ordinary states of the earlier columns and of the
+    seed (`C13_earley_closure_spec`) — order of arrival, parked incomplete states and the deep-copied last column
+    do not matter.  Hence `C13_earley_feed_append_partial`, `C13_earley_chunking_irrelevant_partial`,
+    `C13_earley_canContinue_sound_partial`: the chunking theorems for the real closure, with the three conditions
+    as decidable hypotheses on the runs (`feedOkB` / `chunkOkB` / `ccOkB`, evaluated by the kernel in
+    `C13_earley_example_run`; the driver reports them per piece for every differential case).
+  * The three conditions are needed for THIS proof, and the third one for the statement itself:
+    `C13_earley_close_core_needs_ok` — with two candidates for `place_repetition_shortcut` in a column the closed
+    column depends on the ORDER of the seed (the shortcut rewrites the first candidate in column order).  This is
+    real: on `<start> ::= <b>*; <b> ::= "x" | "ab" "c" | "a" "bc"` the chart of /repo after "xabcx" differs from
+    the chart after "xab","cx" (column 32: which of the two `<*c*> → <b> • <*c*>` states was rewritten) — the
+    complete parses are the same (observed differentially; the state-equivalence `PState.Equiv` the theorems
+    establish is false there, so a proof for `*` / `+` needs a coarser equivalence and stays open).  The covering
+    cut (grammars with a same-span self-derivation) and fuel are limits of the proof only: whether the cut fires
+    is decided per state by `_covering`, which `Column.add`'s duplicate test ignores.
+
+Regular expressions are an oracle; what is assumed of it is the explicit hypothesis `CutStable R` (checked against
+`re` / `regex` for every case by `harness/props/c13.py`).
 
 Since a33087ac the theorems need no alignment hypothesis any more: a text, bytes or regex terminal that follows a
 number of bits that is not a multiple of eight is simply never scanned, at once or in pieces
@@ -24,17 +55,19 @@ boundary inside a digit run offers a split that the whole input never offers.  W
 for oracles that are `CutStable` (literals, bytes, bits, and regexes whose match cannot change once it was
 achieved on non-empty input: `ab*c`, `[0-9]{3}`, `a?`…).
 
-Naming: the theorems that carry the hypotheses `CutStable R` / `eng.Lawful` prove the property for a sub-class
-only and are therefore named `…_partial` (missing: regexes whose match can end in more than one place — for those
-the statement is false, §5 — and the laws of the real predict/complete closure, which are assumed).
-
-`can_continue`: the full statement is `canContinue s = false ↔ no extension of the consumed input is in the
-language`; proved is the `→` half against the model's own recogniser (`C13_canContinue_sound_partial`); linking
-it to `Lang` needs recogniser completeness of an Earley model and stays open.
+Naming: the theorems that carry hypotheses restricting the class are named `…_partial`.  What is missing:
+(1) for the real closure, the passes outside `CloseRes.ok` — columns with a live `*` / `+` state (see above),
+    passes in which the covering cut fires, fuel; for them the property rests on the differential observation;
+(2) regexes whose match can end in more than one place — for those the statement is false, §5;
+(3) `can_continue`: the full statement is `canContinue s = false ↔ no extension of the consumed input is in the
+    language`; proved is the `→` half against the model's own recogniser (`C13_canContinue_sound_partial`); linking
+    it to `Lang` needs recogniser completeness of the Earley model and stays open.
 -/
 import Proofs.Incremental
 import Proofs.IncrementalEx
+import Proofs.IncrEarleyLaws
 import Generated.Incr
+import Generated.Earley
 namespace FV
 namespace Incr
 
@@ -48,40 +81,70 @@ variable {ι : Type}
 theorem C13_source_configuration :
     Generated.incrCfgRead = true ∧ Generated.incrCfg = ScanCfg.modelled := by decide
 
+/-- the closure `Model/IncrEarley.lean` is written for — admission by core item + children with the covering cut
+    (`Policy.acyclic`, 73e5ffe3), `predict` completes the finished empty derivations (1d73281f), `{n,}` without a
+    cap — is what `harness/translate_earley.py` reads from `ParseState.__hash__/__eq__`, `Column.add`,
+    `IterativeParser.complete` / `predict` / `visitRepetition` -/
+theorem C13_closure_configuration : Earley.Gen.variant = some Earley.Variant.now := by decide
+
 /-! ## 1. fragmentation is irrelevant -/
 
 /-- Feeding `a` and then `b` reaches a state equivalent to feeding `a ++ b`: the same ordinary states in
     every column and the same scheduled states in the last column — in particular the same complete items
     and the same resumable (incomplete-terminal) items. -/
-theorem C13_feed_append_partial (eng : Engine ι) (R : ROracle) (md : Mode) (hL : eng.Lawful) (hR : CutStable R)
-    (s : PState ι) (hs : s.Ready eng) (a b : Units) :
+theorem C13_feed_append_partial (eng : Engine ι)
+    (ok : List (Col ι) → (Entry ι → List (Entry ι)) → Col ι → Prop) (R : ROracle) (md : Mode)
+    (hL : eng.LawfulOn ok) (hR : CutStable R) (s : PState ι) (hs : s.Ready eng) (a b : Units)
+    (hoW : feedOK eng R md ok s (a ++ b)) (hoA : feedOK eng R md ok s a)
+    (hoB : feedOK eng R md ok (feed eng R md s a) b) :
     (feed eng R md (feed eng R md s a) b).Equiv (feed eng R md s (a ++ b)) ∧
     SetEq (completeParses eng R md (feed eng R md (feed eng R md s a) b))
       (completeParses eng R md (feed eng R md s (a ++ b))) ∧
     SetEq (resumable (feed eng R md (feed eng R md s a) b)) (resumable (feed eng R md s (a ++ b))) := by
-  have h := (feed_append eng R md hL hR s hs.wf hs.settled hs.bytes a b).symm
+  have h := (feed_append eng R md hL hR s hs.wf hs.settled hs.bytes a b hoW hoA hoB).symm
   have hw1 := feed_wf eng R md hL hR (feed_wf eng R md hL hR hs.wf a) b
   have hw2 := feed_wf eng R md hL hR hs.wf (a ++ b)
-  exact ⟨h, completeParses_congr eng R md hL hR h hw1 hw2, resumable_congr h⟩
+  exact ⟨h, completeParses_congr eng R md hL hR h hw1 hw2 hoB.2 hoW.2, resumable_congr h⟩
 
 /-- For every list of pieces the complete parses (and the resumable states) after the last piece are those
     of the concatenated input fed at once. -/
-theorem C13_chunking_irrelevant_partial (eng : Engine ι) (R : ROracle) (md : Mode) (hL : eng.Lawful)
-    (hR : CutStable R) (s : PState ι) (hs : s.Ready eng) (pieces : List Units) (w : Units)
-    (hw : pieces.flatten = w) :
+theorem C13_chunking_irrelevant_partial (eng : Engine ι)
+    (ok : List (Col ι) → (Entry ι → List (Entry ι)) → Col ι → Prop) (R : ROracle) (md : Mode)
+    (hL : eng.LawfulOn ok) (hR : CutStable R) (s : PState ι) (hs : s.Ready eng) (pieces : List Units) (w : Units)
+    (hw : pieces.flatten = w) (hne : pieces ≠ []) (ho : chunkOK eng R md ok s pieces.reverse) :
     SetEq (completeParses eng R md (pieces.foldl (feed eng R md) s))
       (completeParses eng R md (feed eng R md s w)) ∧
     SetEq (resumable (pieces.foldl (feed eng R md) s)) (resumable (feed eng R md s w)) := by
   subst hw
-  have h := chunking eng R md hL hR s hs.wf hs.settled hs.bytes pieces.reverse
+  have h := chunking eng R md hL hR s hs.wf hs.settled hs.bytes pieces.reverse ho
   simp only [List.reverse_reverse] at h
   have hw1 := foldl_feed_wf eng R md hL hR pieces hs.wf
   have hw2 := feed_wf eng R md hL hR hs.wf pieces.flatten
-  exact ⟨completeParses_congr eng R md hL hR h.symm hw1 hw2, resumable_congr h.symm⟩
+  -- the scans of the exhausted last fragment of the two runs are among the passes `ho` names
+  obtain ⟨p, rs, hpr⟩ : ∃ p rs, pieces.reverse = p :: rs := by
+    cases hr : pieces.reverse with
+    | nil => exact absurd (List.reverse_eq_nil_iff.mp hr) hne
+    | cons p rs => exact ⟨p, rs, rfl⟩
+  rw [hpr] at ho
+  obtain ⟨_, _, ho3, _, ho5⟩ := ho
+  have hp : pieces = rs.reverse ++ [p] := by
+    have := congrArg List.reverse hpr
+    simpa using this
+  have hl1 : lastOK eng R md ok (feed eng R md s pieces.flatten) := by
+    have := ho3.2
+    rw [hp]
+    simpa using this
+  have hl2 : lastOK eng R md ok (pieces.foldl (feed eng R md) s) := by
+    have := ho5.2
+    rw [hp]
+    simpa using this
+  exact ⟨completeParses_congr eng R md hL hR h.symm hw1 hw2 hl2 hl1, resumable_congr h.symm⟩
 
 /-- The hypotheses on the state are invariants: a fresh parse is ready, and feeding keeps it ready
     (so the two theorems above apply after any number of earlier fragments). -/
-theorem C13_ready_invariant (eng : Engine ι) (R : ROracle) (md : Mode) (hL : eng.Lawful) (hR : CutStable R) :
+theorem C13_ready_invariant (eng : Engine ι)
+    (ok : List (Col ι) → (Entry ι → List (Entry ι)) → Col ι → Prop) (R : ROracle) (md : Mode)
+    (hL : eng.LawfulOn ok) (hR : CutStable R) :
     (∀ i, (start i).Ready eng) ∧
     (∀ s a, s.Ready eng → (feed eng R md s a).Ready eng) :=
   ⟨fun i => start_ready eng i, fun s a hs => feed_ready eng R md hL hR s hs a⟩
@@ -101,19 +164,27 @@ theorem C13_incomplete_idx_inv (eng : Engine ι) (R : ROracle) (md : Mode) (hR :
 
 /-- `can_continue() = False` is final: whatever non-empty input follows — at once or in pieces — no complete
     parse is ever reported again.  (Partial: soundness against the model's recogniser, not against `Lang`.) -/
-theorem C13_canContinue_sound_partial (eng : Engine ι) (R : ROracle) (md : Mode) (hC : eng.LawfulCC)
-    (s : PState ι) (hset : s.Settled) (hcc : canContinue eng s = false) (v : Units) (hv : v ≠ []) :
+theorem C13_canContinue_sound_partial (eng : Engine ι)
+    (ok : List (Col ι) → (Entry ι → List (Entry ι)) → Col ι → Prop) (okc : List (Col ι) → Col ι → Prop)
+    (R : ROracle) (md : Mode) (hC : eng.LawfulCCOn ok okc)
+    (s : PState ι) (hset : s.Settled) (hcc : canContinue eng s = false) (v : Units) (hv : v ≠ [])
+    (hoP : procOK eng R md ok v 0 s) (hoC : okc s.done (seedAt s.pend s.done.length)) :
     completeParses eng R md (feed eng R md s v) = [] :=
-  canContinue_false_no_parse eng R md hC s hset hcc v hv
+  canContinue_false_no_parse eng R md hC s hset hcc v hv hoP hoC
 
 /-- … and for every way of cutting the continuation -/
-theorem C13_canContinue_sound_pieces_partial (eng : Engine ι) (R : ROracle) (md : Mode) (hL : eng.Lawful)
-    (hC : eng.LawfulCC) (hR : CutStable R) (s : PState ι) (hs : s.Ready eng)
-    (hcc : canContinue eng s = false) (pieces : List Units) (hne : pieces.flatten ≠ []) :
+theorem C13_canContinue_sound_pieces_partial (eng : Engine ι)
+    (ok : List (Col ι) → (Entry ι → List (Entry ι)) → Col ι → Prop) (okc : List (Col ι) → Col ι → Prop)
+    (R : ROracle) (md : Mode) (hL : eng.LawfulOn ok)
+    (hC : eng.LawfulCCOn ok okc) (hR : CutStable R) (s : PState ι) (hs : s.Ready eng)
+    (hcc : canContinue eng s = false) (pieces : List Units) (hne : pieces.flatten ≠ [])
+    (ho : chunkOK eng R md ok s pieces.reverse)
+    (hoP : procOK eng R md ok pieces.flatten 0 s) (hoC : okc s.done (seedAt s.pend s.done.length)) :
     ∀ t, t ∉ completeParses eng R md (pieces.foldl (feed eng R md) s) := by
   intro t ht
-  have h := (C13_chunking_irrelevant_partial eng R md hL hR s hs pieces _ rfl).1 t
-  rw [C13_canContinue_sound_partial eng R md hC s hs.settled hcc _ hne] at h
+  have hp : pieces ≠ [] := fun h => hne (by rw [h]; rfl)
+  have h := (C13_chunking_irrelevant_partial eng ok R md hL hR s hs pieces _ rfl hp ho).1 t
+  rw [C13_canContinue_sound_partial eng ok okc R md hC s hs.settled hcc _ hne hoP hoC] at h
   exact absurd (h.mp ht) (by simp)
 
 /-! ## 3. the hypotheses are satisfiable: a concrete lawful engine and concrete oracles -/
